@@ -347,7 +347,9 @@ type lookupUniverse struct {
 	Triples  []model.TripleSpec `json:"triples"`
 }
 
-func tsp(sec int64, nsec, off int) *model.TimeSpec { return &model.TimeSpec{Sec: sec, Nsec: nsec, Off: off} }
+func tsp(sec int64, nsec, off int) *model.TimeSpec {
+	return &model.TimeSpec{Sec: sec, Nsec: nsec, Off: off}
+}
 
 func genLookupUniverse(t *rapid.T) lookupUniverse {
 	var u lookupUniverse
